@@ -456,4 +456,33 @@ def goBody (recovered : Bool) (panic : Option Err) : GoResult :=
   | none => .returned
   | some p => if recovered then .unhandled p else .crash p
 
+/-! ### a destination that is not an `observerImpl`
+
+  `Observer[T]` is an interface; a hand-written implementation has no `tryNext` around its code.
+  `subscriberImpl.NextWithContext` (subscriber.go:176-199) calls it between `s.mu.Lock()` and
+  `s.mu.Unlock()` **without `defer`**: a panic travels up to the recover of
+  `SubscribeWithContext` with the mutex still locked, and the handler's
+  `subscription.ErrorWithContext` (subscriber.go:207-221) starts with `s.mu.Lock()`. -/
+
+structure RawRun where
+  /-- `Subscribe` never returns -/
+  hang : Bool := false
+  /-- calls received by the hand-written observer -/
+  seen : List (Notif Int) := []
+deriving DecidableEq, Repr
+
+/-- a synchronous source emitting `vs` into a hand-written observer whose `Next` fails as planned;
+    `safe`: the observable was built with a real mutex (`NewSafeObservable`); `deferred`: the
+    unlock of `subscriberImpl.NextWithContext` is deferred (regenerated fact `RoGen.FaultFacts`) -/
+def rawObserverRun (deferred safe : Bool) (fN : Nat → Option Fault) : Nat → List Int → RawRun → RawRun
+  | _, [], r => r
+  | k, v :: vs, r =>
+    match panicAt fN k with
+    | none => rawObserverRun deferred safe fN (k + 1) vs { r with seen := r.seen ++ [.next {} v] }
+    | some p =>
+      -- the panic leaves `NextWithContext`; the subscribe function is abandoned; the recover
+      -- handler calls `ErrorWithContext`, which takes the mutex
+      if safe && !deferred then { r with seen := r.seen ++ [.next {} v], hang := true }
+      else { r with seen := r.seen ++ [.next {} v, .error {} (.observable p)] }
+
 end Ro.Fault
